@@ -5,7 +5,8 @@ From Coq Require Import NArith List Bool.
 From Verif Require Import Common.Bytes Codec.ChainId.
 From Verif Require Import P2P.Frame P2P.FrameProofs P2P.Handshake P2P.HandshakeProofs
   P2P.Inbound P2P.InboundProofs P2P.BlockId P2P.BlockIdProofs P2P.Stream P2P.StreamProofs
-  P2P.BlockRecv P2P.BlockRecvProofs.
+  P2P.BlockRecv P2P.BlockRecvProofs P2P.WireHS P2P.WireHSProofs P2P.StatusRaw P2P.StatusRawProofs
+  P2P.Limits.
 Import ListNotations.
 Open Scope N_scope.
 
@@ -432,3 +433,139 @@ Theorem C18_get_block_response_forwards_any : forall too_big b,
   too_big b = false -> handle_get_block_response too_big [b] = AForward b.
 Proof. exact get_block_response_forwards_any. Qed.
 Print Assumptions C18_get_block_response_forwards_any.
+
+(** * Wire handshake header (p2p/handshakev2.go, p2p/p2pcommon/handshake.go) *)
+
+(** A well-formed request header (1..16 versions) is read back whatever follows it. *)
+Theorem C18_hs_header_roundtrip : forall r rest, hs_req_wf r ->
+  read_hs_req (marshal_hs_req r ++ rest)
+  = mk_hrr (HOk r rest) (hs_word + 4 * N.of_nat (length (hq_versions r))).
+Proof. exact hs_header_roundtrip. Qed.
+Print Assumptions C18_hs_header_roundtrip.
+
+Theorem C18_hs_resp_roundtrip : forall r rest, hp_magic r < 2 ^ 32 -> hp_code r < 2 ^ 32 ->
+  read_hs_resp (marshal_hs_resp r ++ rest) = Some (r, rest).
+Proof. exact hs_resp_roundtrip. Qed.
+Print Assumptions C18_hs_resp_roundtrip.
+
+(** Reading the request header from arbitrary bytes never panics and never requests more
+    than 4 + 4*16 bytes, whatever version count the peer announces. *)
+Theorem C18_hs_read_total : forall s, hs_outcome (read_hs_req s) <> HPanic.
+Proof. exact hs_read_total. Qed.
+Print Assumptions C18_hs_read_total.
+
+Theorem C18_hs_alloc_bounded : forall s, hs_alloc (read_hs_req s) <= hs_word + 4 * hs_max_version_cnt.
+Proof. exact hs_alloc_bounded. Qed.
+Print Assumptions C18_hs_alloc_bounded.
+
+Theorem C18_hs_bad_count_refused : forall magic cnt rest,
+  magic < 2 ^ 32 -> cnt < 2 ^ 32 -> (cnt = 0 \/ hs_max_version_cnt < cnt) ->
+  read_hs_req (be_bytes 4 magic ++ be_bytes 4 cnt ++ rest) = mk_hrr (HBadCount cnt) hs_word.
+Proof. exact hs_bad_count_refused. Qed.
+Print Assumptions C18_hs_bad_count_refused.
+
+Theorem C18_hs_read_ok_shape : forall s r rest a,
+  read_hs_req s = mk_hrr (HOk r rest) a ->
+  (1 <= length (hq_versions r) <= 16)%nat /\ a = hs_word + 4 * N.of_nat (length (hq_versions r)) /\
+  exists used, s = used ++ rest /\ length used = (8 + 4 * length (hq_versions r))%nat.
+Proof. exact hs_read_ok_shape. Qed.
+Print Assumptions C18_hs_read_ok_shape.
+
+(** Anything but a complete header with the main-net magic and a common version is answered
+    with the error magic and refused; otherwise the answer carries the magic and the best
+    common version and the versioned handshaker runs on the bytes after the header. *)
+Theorem C18_wire_refused_unless_well_formed : forall (decode : bytes -> option status) max l s resp nx,
+  handle_inbound_wire decode max l s = (resp, nx) ->
+  (hp_magic resp = hs_error /\ nx = WRefused) \/
+  (exists r rest, hs_outcome (read_hs_req s) = HOk r rest /\ hq_magic r = magic_main /\
+     hp_magic resp = magic_main /\
+     hp_code resp = find_best_version accepted_inbound_versions (hq_versions r) /\
+     hp_code resp <> v_unknown /\
+     nx = WInner (hp_code resp) (inbound decode max l (hq_versions r) rest)).
+Proof. exact wire_refused_unless_well_formed. Qed.
+Print Assumptions C18_wire_refused_unless_well_formed.
+
+(** From the first byte of an inbound connection: a handshake completed at a version other
+    than 0.3.1 is with a peer of the same chain. *)
+Theorem C18_wire_inbound_ok_same_chain : forall (decode : bytes -> option status) max l s resp v v' st rest,
+  handle_inbound_wire decode max l s = (resp, WInner v (InOk v' st rest)) -> v' <> v031 ->
+  hp_magic resp = magic_main /\ hp_code resp = v /\ v' = v /\
+  st_genesis st = l_genesis l /\ st_peer_id st = l_peer_id l /\
+  exists rc, chain_id_read (st_chain_id st) = Some rc /\
+    (rc = l_chain_id_at l (st_best_height st) \/ rc = l_static_chain_id l).
+Proof. exact wire_inbound_ok_same_chain. Qed.
+Print Assumptions C18_wire_inbound_ok_same_chain.
+
+(** Two nodes of this code base: the outbound request is read by the inbound side, which
+    answers 2.0.0, and the outbound side accepts that answer. *)
+Theorem C18_wire_interop : forall (decode : bytes -> option status) max l rest rest',
+  hs_outcome (read_hs_req (outbound_request ++ rest))
+    = HOk (mk_hs_req magic_main attempting_outbound_versions) rest /\
+  fst (handle_inbound_wire decode max l (outbound_request ++ rest)) = mk_hs_resp magic_main v200 /\
+  handle_outbound_wire (marshal_hs_resp (mk_hs_resp magic_main v200) ++ rest')
+    = (outbound_request, OInner v200 rest').
+Proof. exact wire_interop. Qed.
+Print Assumptions C18_wire_interop.
+
+Theorem C18_outbound_refuses_error_response : forall s,
+  (blen s < 8 \/ (8 <= blen s /\ be_decode (take 4 s) <> magic_main)) ->
+  snd (handle_outbound_wire s) = ORefused.
+Proof. exact outbound_refuses_error_response. Qed.
+Print Assumptions C18_outbound_refuses_error_response.
+
+(** F20, outbound side: the listener chooses the version; answering 0.3.1 is followed. *)
+Theorem C18_outbound_version_chosen_by_listener_refuted :
+  exists s l st,
+    snd (handle_outbound_wire s) = OInner v031 [] /\
+    In v200 attempting_outbound_versions /\
+    st_genesis st <> l_genesis l /\ check_remote_status_v031 l st = None.
+Proof. exact outbound_version_chosen_by_listener_refuted. Qed.
+Print Assumptions C18_outbound_version_chosen_by_listener_refuted.
+
+(** * Status messages with optional fields explicit; the role / certificate rule *)
+
+(** No decoded status (nil Sender, empty fields, any certificates) makes a status check
+    dereference nil: the four checks are total. *)
+Theorem C18_check_total : forall l rs,
+  check_raw_v031 l rs <> CPanic /\ check_raw_v032 l rs <> CPanic /\
+  check_raw_v033 l rs <> CPanic /\ check_raw_v200 l rs <> CPanic.
+Proof. exact check_total. Qed.
+Print Assumptions C18_check_total.
+
+(** The checks on decoded statuses are the abstract checks of P2P/Handshake.v (so every
+    handshake theorem above applies to them). *)
+Theorem C18_check_raw_refines : forall l rs,
+  check_raw_v031 l rs = of_option (check_remote_status_v031 l (status_of_raw rs)) /\
+  check_raw_v032 l rs = of_option (check_remote_status_v032 l (status_of_raw rs)) /\
+  check_raw_v033 l rs = of_option (check_remote_status_v033 l (status_of_raw rs)) /\
+  check_raw_v200 l rs = of_option (check_remote_status_v200 l (status_of_raw rs)).
+Proof. exact check_raw_refines. Qed.
+Print Assumptions C18_check_raw_refines.
+
+(** checkByRole / checkAgent: accepted iff not an agent, or at least one producer id and
+    every certificate valid, issued for this agent and for a listed producer. *)
+Theorem C18_agent_accepted_iff : forall sd certs,
+  check_by_role sd certs = true <->
+  role_eff sd <> role_agent \/
+  (sd_producers sd <> [] /\
+   forall c, In c certs ->
+     c_valid c = true /\ c_agent_id c = sd_peer_id sd /\ In (c_bp_id c) (sd_producers sd)).
+Proof. exact agent_accepted_iff. Qed.
+Print Assumptions C18_agent_accepted_iff.
+
+Theorem C18_v200_raw_accept_iff : forall l rs,
+  check_raw_v200 l rs = CAccept <->
+  exists sd, rs_sender rs = Some sd /\
+    chain_id_read (rs_chain_id rs) = Some (l_chain_id_at l (rs_best_height rs)) /\
+    blen (rs_best_hash rs) = hash_id_length /\ sd_addr_class_ok sd = true /\
+    sd_peer_id sd = l_peer_id l /\ rs_genesis rs = l_genesis l /\
+    check_by_role sd (rs_certs rs) = true.
+Proof. exact v200_raw_accept_iff. Qed.
+Print Assumptions C18_v200_raw_accept_iff.
+
+(** * Size limits: a maximal legal block always fits in one frame *)
+Theorem C18_max_block_message_fits : forall body_limit block_bytes,
+  body_limit <= block_size_hard_limit -> block_bytes <= max_block_size body_limit ->
+  block_bytes + envelope <= max_payload_length.
+Proof. exact max_block_message_fits. Qed.
+Print Assumptions C18_max_block_message_fits.
